@@ -90,6 +90,8 @@ def call(interp, fr, st, pc, path, fn, r, args, t):
     if h is None:
         h = _iter_generic_dispatch(path)
     if h is None:
+        h = _from_int_dispatch(path)
+    if h is None:
         for pref, hh in PREFIX:
             if path.startswith(pref):
                 h = hh
@@ -3013,6 +3015,457 @@ TABLE.update({
     "std::iter::Peekable::<I>::peek": peekable_peek,
     "std::iter::Peekable::<I>::next_if": peekable_next_if,
 })
+
+
+# ---------------------------------------------------------------------------------- byte strings
+# Opaque("bstr", (tuple of W(8) bytes,)): a &str whose bytes are known words - mostly concrete, a few symbolic ones
+# (bit 7 constant 0: single-byte characters).  Used by the byte-window rule of C09 (window mode: bit functions of the
+# symbolic bytes are exact).  Every str summary first looks for this representation.
+def _bstr(v):
+    return isinstance(v, Opaque) and v.kind == "bstr"
+
+
+def _b_or(x, y):
+    return b_not(b_and(b_not(x), b_not(y)))
+
+
+def _in_range(i, fr, b, lo, hi):
+    return b_and(i.binop("Ge", b, wconst(b.width, lo), fr), i.binop("Le", b, wconst(b.width, hi), fr))
+
+
+def _is_hexdigit(i, fr, b):
+    return _b_or(_in_range(i, fr, b, 48, 57), _b_or(_in_range(i, fr, b, 97, 102), _in_range(i, fr, b, 65, 70)))
+
+
+def _digit_value(i, fr, b, radix=16):
+    """(valid bit-value, 8-bit word holding the digit value when valid)"""
+    from .absint import w_sub
+    dec, low, up = _in_range(i, fr, b, 48, 57), _in_range(i, fr, b, 97, 102), _in_range(i, fr, b, 65, 70)
+    if radix != 16:
+        raise Undecided("digit value in radix %s" % radix)
+    vd = w_sub(b, wconst(b.width, 48))[0]
+    vl = w_sub(b, wconst(b.width, 87))[0]
+    vu = w_sub(b, wconst(b.width, 55))[0]
+    bits = []
+    for k in range(b.width):
+        def bit(w_):
+            return w_.bit(k) if hasattr(w_, "bit") else w_.all_bits()[k]
+        acc = B.bor(B.band(_bit_of(dec), bit(vd)), B.bor(B.band(_bit_of(low), bit(vl)), B.band(_bit_of(up), bit(vu))))
+        bits.append(acc)
+    valid = _b_or(dec, _b_or(low, up))
+    return valid, W(b.width, bits=bits)
+
+
+def _bit_of(c):
+    if isinstance(c, W):
+        return (ONE if c.val else ZERO) if c.val is not None else c.bits[0]
+    raise Undecided("condition %r is not a bit" % (c,))
+
+
+def u8_class(kind):
+    def f(i, fr, st, pc, a, t, fn, r):
+        b = i.read_ptr(st, a[0]) if isinstance(a[0], Ptr) else a[0]
+        if not isinstance(b, W):
+            raise Undecided("%s on %r" % (kind, b))
+        if kind == "hexdigit":
+            return _ret(i, st, pc, _is_hexdigit(i, fr, b))
+        if kind == "digit":
+            return _ret(i, st, pc, _in_range(i, fr, b, 48, 57))
+        if kind == "upper":
+            return _ret(i, st, pc, _in_range(i, fr, b, 65, 90))
+        if kind == "lower":
+            return _ret(i, st, pc, _in_range(i, fr, b, 97, 122))
+        if kind == "ascii":
+            return _ret(i, st, pc, i.binop("Le", b, wconst(b.width, 127), fr))
+        raise Undecided(kind)
+    return f
+
+
+def char_to_digit(i, fr, st, pc, a, t, fn, r):
+    """char::to_digit(radix) / is_digit(radix) for radix 16 on a symbolic ASCII char"""
+    c, radix = a[0], a[1]
+    if isinstance(c, Ptr):
+        c = i.read_ptr(st, c)
+    if radix.val != 16 or not isinstance(c, W):
+        raise Undecided("to_digit shape")
+    valid, val = _digit_value(i, fr, c)
+    if fn["name"] == "is_digit":
+        return _ret(i, st, pc, valid)
+    val32 = W(32, bits=(val.all_bits() + [ZERO] * 32)[:32])
+    outs = []
+    for s2, p2, ok in _split_bool(i, st, pc, valid):
+        outs.append(Outcome("return", s2, p2, some(val32) if ok else NONE))
+    return outs
+
+
+def bstr_dispatch(old, new):
+    def f(i, fr, st, pc, a, t, fn, r):
+        s0 = a[0]
+        if isinstance(s0, Ptr) and s0.sl is None:
+            inner = i.read_ptr(st, s0)
+            if _bstr(inner):
+                s0 = inner
+        if _bstr(s0):
+            return new(i, fr, st, pc, [s0] + list(a[1:]), t, fn, r)
+        return old(i, fr, st, pc, a, t, fn, r)
+    return f
+
+
+def bstr_is_ascii(i, fr, st, pc, a, t, fn, r):
+    acc = wbool(True)
+    for b in a[0].data[0]:
+        acc = b_and(acc, b_not(W(1, bits=[b.all_bits()[7]])) if b.val is None else wbool(b.val < 128))
+    return _ret(i, st, pc, acc)
+
+
+def bstr_len(i, fr, st, pc, a, t, fn, r):
+    return _ret(i, st, pc, usize(len(a[0].data[0])))
+
+
+def bstr_index(i, fr, st, pc, a, t, fn, r):
+    s, rg = a
+    bs = s.data[0]
+    if not isinstance(rg, Agg):
+        raise Undecided("str index %r" % (rg,))
+    fields = list(rg.fields)
+    nm = (rg.key or "")
+    lo, hi = 0, len(bs)
+    if "RangeFrom" in nm:
+        lo = fields[0].val
+    elif "RangeTo" in nm:
+        hi = fields[0].val
+    elif "RangeFull" in nm:
+        pass
+    else:
+        lo, hi = fields[0].val, fields[1].val
+    if lo is None or hi is None:
+        raise Undecided("symbolic str range")
+    if lo > hi or hi > len(bs):
+        return i.panic(st, pc, "str index out of range", fr, t)
+    if any(b.val is None and b.all_bits()[7] != ZERO or (b.val is not None and b.val >= 128) for b in bs):
+        raise Undecided("slicing a byte string with possible multi-byte characters")
+    return _ret(i, st, pc, Opaque("bstr", (tuple(bs[lo:hi]),)))
+
+
+def bstr_bytes(i, fr, st, pc, a, t, fn, r):
+    bs = a[0].data[0]
+    if fn["name"] == "as_bytes":
+        cell = new_cell()
+        st.mem[cell] = Arr(list(bs))
+        return _ret(i, st, pc, Ptr(cell, (), (0, len(bs)), "ref"))
+    if fn["name"] == "chars":
+        return _ret(i, st, pc, Opaque("vals", (tuple(W(32, bits=(b.all_bits() + [ZERO] * 24)) if b.val is None else wconst(32, b.val) for b in bs), usize(0))))
+    return _ret(i, st, pc, Opaque("vals", (tuple(bs), usize(0))))
+
+
+def bstr_from_str_radix(i, fr, st, pc, a, t, fn, r):
+    """uN::from_str_radix(s, 16) decoded digit by digit: Ok(value) iff the text is an optional '+' followed by at
+    least one hex digit (either case) and fits; Err otherwise"""
+    from .absint import w_shl
+    s, radix = a
+    if radix.val != 16:
+        raise Undecided("from_str_radix radix")
+    bs = list(s.data[0])
+    width = 64
+    m_ = _INT_RE.match(fn.get("path", "")) if hasattr(fn, "get") else None
+    if not bs:
+        return _ret(i, st, pc, Agg("adt", RESULT, 1, (TopV("ParseIntError"),)))
+    if len(bs) > width // 4:
+        raise Undecided("from_str_radix of %d characters" % len(bs))
+    valid = wbool(True)
+    val_bits = [ZERO] * width
+    for k, b in enumerate(bs):
+        vk, dk = _digit_value(i, fr, b)
+        if k == 0 and len(bs) > 1:
+            plus = w_eq(b, wconst(b.width, 43))
+            vk = _b_or(vk, plus)
+        valid = b_and(valid, vk)
+        sh = 4 * (len(bs) - 1 - k)
+        for j in range(4):
+            val_bits[sh + j] = dk.all_bits()[j]
+    val = W(width, bits=val_bits)
+    outs = []
+    for s2, p2, ok in _split_bool(i, st, pc, valid):
+        outs.append(Outcome("return", s2, p2, Agg("adt", RESULT, 0, (val,)) if ok else Agg("adt", RESULT, 1, (TopV("ParseIntError"),))))
+    return outs
+
+
+def _split_bool_any(i, st, pc, v):
+    return _split_bool(i, st, pc, v)
+
+
+for _p, _new in (("core::str::<impl str>::is_ascii", bstr_is_ascii), ("core::str::<impl str>::len", bstr_len),
+                 ("core::str::traits::<impl std::ops::Index<I> for str>::index", bstr_index),
+                 ("core::str::<impl str>::bytes", bstr_bytes), ("core::str::<impl str>::chars", bstr_bytes),
+                 ("core::str::<impl str>::as_bytes", bstr_bytes), ("core::num::<impl u64>::from_str_radix", bstr_from_str_radix)):
+    TABLE[_p] = bstr_dispatch(TABLE[_p], _new)
+TABLE.update({
+    "core::num::<impl u8>::is_ascii_hexdigit": u8_class("hexdigit"),
+    "core::num::<impl u8>::is_ascii_digit": u8_class("digit"),
+    "core::num::<impl u8>::is_ascii_uppercase": u8_class("upper"),
+    "core::num::<impl u8>::is_ascii_lowercase": u8_class("lower"),
+    "core::num::<impl u8>::is_ascii": u8_class("ascii"),
+    "core::char::methods::<impl char>::is_ascii_hexdigit": u8_class("hexdigit"),
+    "core::char::methods::<impl char>::is_ascii_digit": u8_class("digit"),
+    "core::char::methods::<impl char>::is_ascii": u8_class("ascii"),
+    "core::char::methods::<impl char>::to_digit": char_to_digit,
+    "core::char::methods::<impl char>::is_digit": char_to_digit,
+})
+
+TABLE.update({
+    "<std::str::Bytes<'_> as std::iter::Iterator>::all": generic_all_any,
+    "<std::str::Bytes<'_> as std::iter::Iterator>::any": generic_all_any,
+    "<std::str::Chars<'a> as std::iter::Iterator>::all": generic_all_any,
+    "<std::str::Chars<'a> as std::iter::Iterator>::any": generic_all_any,
+    "<std::str::Bytes<'_> as std::iter::Iterator>::next": multi_next,
+    "<std::str::Chars<'a> as std::iter::Iterator>::next": multi_next,
+})
+
+
+def bytes_is_ascii(i, fr, st, pc, a, t, fn, r):
+    acc = wbool(True)
+    for e in i.slice_elems(st, a[0]):
+        b = i.read_ptr(st, e) if isinstance(e, Ptr) else e
+        if not isinstance(b, W):
+            raise Undecided("is_ascii of %r" % (b,))
+        acc = b_and(acc, wbool(b.val < 128) if b.val is not None else b_not(W(1, bits=[b.all_bits()[7]])))
+    return _ret(i, st, pc, acc)
+
+
+def char_from_u8(i, fr, st, pc, a, t, fn, r):
+    b = a[0]
+    if b.val is not None:
+        return _ret(i, st, pc, wconst(32, b.val))
+    return _ret(i, st, pc, W(32, bits=(b.all_bits() + [ZERO] * 32)[:32]))
+
+
+def str_split_at(i, fr, st, pc, a, t, fn, r):
+    s, mid = a
+    if isinstance(s, Ptr) and s.sl is None:
+        s = i.read_ptr(st, s)
+    if mid.val is None:
+        raise Undecided("symbolic split point")
+    if _bstr(s):
+        bs = s.data[0]
+        if mid.val > len(bs):
+            return i.panic(st, pc, "split_at: mid out of range", fr, t)
+        if any((b.val is None and b.all_bits()[7] != ZERO) or (b.val is not None and b.val >= 128) for b in bs):
+            raise Undecided("split of a byte string with possible multi-byte characters")
+        return _ret(i, st, pc, Agg("tuple", None, 0, (Opaque("bstr", (tuple(bs[:mid.val]),)), Opaque("bstr", (tuple(bs[mid.val:]),)))))
+    if not (isinstance(s, Opaque) and s.kind == "str") or s.data[0] is not None:
+        raise Undecided("split_at of %r" % (s,))
+    ln = s.data[1]
+    if ln.val is None:
+        raise Undecided("split_at of a string of unknown length")
+    if mid.val > ln.val:
+        return i.panic(st, pc, "split_at: mid out of range", fr, t)
+    base = s.data[2][1] if len(s.data) > 2 else 0
+    lo = Opaque("str", (None, usize(mid.val), ("sub", base, base + mid.val)))
+    hi = Opaque("str", (None, usize(ln.val - mid.val), ("sub", base + mid.val, base + ln.val)))
+    outs = [Outcome("return", st, pc, Agg("tuple", None, 0, (lo, hi)))]
+    if not _ascii_guarded(pc) and 0 < mid.val < ln.val:
+        info = dict(kind="std", msg="byte index is not a char boundary (string not known to be ASCII)", fn=fr.fn_path, span=t["span"], profile_dependent=False, definite=False)
+        outs.append(Outcome("panic", st.fork(), pc, None, info))
+    return outs
+
+
+TABLE.update({
+    "core::slice::ascii::<impl [u8]>::is_ascii": bytes_is_ascii,
+    "std::char::convert::<impl std::convert::From<u8> for char>::from": char_from_u8,
+    "core::str::<impl str>::split_at": str_split_at,
+})
+
+
+def it_try_fold(i, fr, st, pc, a, t, fn, r):
+    """try_fold(init, f) for closures returning Option / Result: stops at the first None / Err"""
+    src, init, clos = a
+    other = []
+    kind_seen = []
+
+    def step(s, p, acc, item):
+        res = []
+        for o in call_closure(i, fr, s, p, clos, [acc[1], item]):
+            if o.kind != "return":
+                other.append(o)
+                continue
+            v = o.value
+            if not (isinstance(v, Agg) and v.key in (OPTION, RESULT)):
+                raise Undecided("try_fold closure returns %r" % (v,))
+            kind_seen.append(v.key)
+            good = (v.variant == 1) if v.key == OPTION else (v.variant == 0)
+            if good:
+                res.append((o.state, o.pc, ("acc", v.fields[0]), False))
+            else:
+                res.append((o.state, o.pc, ("stop", v), True))
+        return res
+
+    def finish(s, p, acc):
+        if acc[0] == "stop":
+            return acc[1]
+        out_ty = (r or fn).get("args") or []
+        key = kind_seen[0] if kind_seen else None
+        if key is None:
+            for x in out_ty:
+                if isinstance(x, dict) and x.get("path") in ("std::option::Option", "std::result::Result"):
+                    key = OPTION if x["path"].endswith("Option") else RESULT
+        if key == OPTION:
+            return some(acc[1])
+        if key == RESULT:
+            return Agg("adt", RESULT, 0, (acc[1],))
+        raise Undecided("try_fold result type")
+    return _drive(i, fr, st, pc, src, ("acc", init), step, finish) + other
+
+
+TABLE.update({
+    "std::iter::Iterator::try_fold": it_try_fold,
+    "std::char::methods::<impl char>::to_digit": char_to_digit,
+    "std::char::methods::<impl char>::is_digit": char_to_digit,
+    "std::char::methods::<impl char>::is_ascii_hexdigit": u8_class("hexdigit"),
+    "std::char::methods::<impl char>::is_ascii_digit": u8_class("digit"),
+})
+
+
+# ---------------------------------------------------------------------------------- Option / Result combinators
+CF = "std::ops::ControlFlow"
+
+
+def _opt_good(v):
+    if not isinstance(v, Agg) or v.key not in (OPTION, RESULT):
+        raise Undecided("Option/Result combinator on %r" % (v,))
+    return (v.variant == 1) if v.key == OPTION else (v.variant == 0)
+
+
+def _wrap_like(v, x, good=True):
+    if v.key == OPTION:
+        return some(x) if good else NONE
+    return Agg("adt", RESULT, 0 if good else 1, (x,))
+
+
+def option_branch(i, fr, st, pc, a, t, fn, r):
+    v = a[0]
+    if _opt_good(v):
+        return _ret(i, st, pc, Agg("adt", CF, 0, (v.fields[0],)))
+    return _ret(i, st, pc, Agg("adt", CF, 1, (v,)))
+
+
+def option_from_residual(i, fr, st, pc, a, t, fn, r):
+    out = ((r or fn).get("args") or [{}])[0]
+    if isinstance(out, dict) and str(out.get("path", "")).endswith("Result"):
+        v = a[0]
+        return _ret(i, st, pc, Agg("adt", RESULT, 1, (v.fields[0],)) if isinstance(v, Agg) and v.fields else v)
+    return _ret(i, st, pc, NONE)
+
+
+def opt_comb(name):
+    def f(i, fr, st, pc, a, t, fn, r):
+        v = a[0]
+        if isinstance(v, Ptr) and v.sl is None and name in ("as_ref", "copied", "cloned"):
+            v = i.read_ptr(st, v)
+        good = _opt_good(v)
+        x = v.fields[0] if v.fields else None
+
+        def call1(clos, args):
+            outs = []
+            for o in call_closure(i, fr, st, pc, clos, args):
+                outs.append(o)
+            return outs
+        if name == "ok_or":
+            return _ret(i, st, pc, Agg("adt", RESULT, 0, (x,)) if good else Agg("adt", RESULT, 1, (a[1],)))
+        if name == "ok_or_else":
+            if good:
+                return _ret(i, st, pc, Agg("adt", RESULT, 0, (x,)))
+            return [Outcome("return", o.state, o.pc, Agg("adt", RESULT, 1, (o.value,))) if o.kind == "return" else o for o in call1(a[1], [])]
+        if name == "ok":
+            return _ret(i, st, pc, some(x) if good else NONE)
+        if name == "err":
+            return _ret(i, st, pc, NONE if good else some(x))
+        if name == "map":
+            if not good:
+                return _ret(i, st, pc, v)
+            return [Outcome("return", o.state, o.pc, _wrap_like(v, o.value)) if o.kind == "return" else o for o in call1(a[1], [x])]
+        if name == "map_err":
+            if good:
+                return _ret(i, st, pc, v)
+            return [Outcome("return", o.state, o.pc, Agg("adt", RESULT, 1, (o.value,))) if o.kind == "return" else o for o in call1(a[1], [x])]
+        if name == "and_then":
+            if not good:
+                return _ret(i, st, pc, v)
+            return call1(a[1], [x])
+        if name == "filter":
+            if not good:
+                return _ret(i, st, pc, v)
+            c = new_cell()
+            st.mem[c] = x
+            outs = []
+            for o in call_closure(i, fr, st, pc, a[1], [Ptr(c, ())]):
+                if o.kind != "return":
+                    outs.append(o)
+                    continue
+                for s2, p2, keep in _split_bool(i, o.state, o.pc, o.value):
+                    outs.append(Outcome("return", s2, p2, v if keep else NONE))
+            return outs
+        if name == "unwrap_or_else":
+            if good:
+                return _ret(i, st, pc, x)
+            return call1(a[1], [] if v.key == OPTION else [x])
+        if name == "unwrap_or_default":
+            if good:
+                return _ret(i, st, pc, x)
+            raise Undecided("unwrap_or_default on the empty variant")
+        if name in ("copied", "cloned"):
+            if good and isinstance(x, Ptr):
+                return _ret(i, st, pc, _wrap_like(v, i.read_ptr(st, x)))
+            return _ret(i, st, pc, v)
+        if name == "or":
+            return _ret(i, st, pc, v if good else a[1])
+        if name == "and":
+            return _ret(i, st, pc, a[1] if good else v)
+        if name == "map_or":
+            if not good:
+                return _ret(i, st, pc, a[1])
+            return call1(a[2], [x])
+        if name == "is_some_and":
+            if not good:
+                return _ret(i, st, pc, wbool(False))
+            return call1(a[1], [x])
+        raise Undecided("combinator " + name)
+    return f
+
+
+for _n in ("ok_or", "ok_or_else", "map", "and_then", "filter", "unwrap_or_else", "unwrap_or_default", "copied", "cloned", "or", "and", "map_or", "is_some_and"):
+    TABLE["std::option::Option::<T>::" + _n] = opt_comb(_n)
+    TABLE["std::option::Option::<&T>::" + _n] = opt_comb(_n)
+for _n in ("ok", "err", "map", "map_err", "and_then", "unwrap_or_else", "unwrap_or_default", "or", "and", "map_or"):
+    TABLE["std::result::Result::<T, E>::" + _n] = opt_comb(_n)
+TABLE.update({
+    "<std::option::Option<T> as std::ops::Try>::branch": option_branch,
+    "<std::option::Option<T> as std::ops::FromResidual<std::option::Option<std::convert::Infallible>>>::from_residual": option_from_residual,
+    "<std::result::Result<T, F> as std::ops::FromResidual<std::option::Option<std::convert::Infallible>>>::from_residual": option_from_residual,
+})
+
+
+_FROM_INT_RE = _re_mod.compile(r"^std::convert::num::<impl std::convert::From<([ui])(\d+|size)> for ([ui])(\d+|size)>::from$")
+
+
+def _from_int_dispatch(path):
+    m = _FROM_INT_RE.match(path)
+    if not m:
+        return None
+    sw = 64 if m.group(2) == "size" else int(m.group(2))
+    dw = 64 if m.group(4) == "size" else int(m.group(4))
+    ssigned, dsigned = m.group(1) == "i", m.group(3) == "i"
+
+    def h(i, fr, st, pc, a, t, fn, r):
+        x = a[0]
+        if not isinstance(x, W):
+            raise Undecided("integer conversion of %r" % (x,))
+        if x.val is not None:
+            v = x.sval() if ssigned else x.val
+            return _ret(i, st, pc, W(dw, val=v & ((1 << dw) - 1), signed=dsigned))
+        bits = x.all_bits()
+        ext = bits[-1] if ssigned else ZERO
+        return _ret(i, st, pc, W(dw, bits=(bits + [ext] * dw)[:dw], signed=dsigned))
+    return h
 
 
 def _int_dispatch(path):
